@@ -9,15 +9,17 @@ pub mod t1 {
    ascent! {
       #![generate_run_timeout]
       pub struct Prog;
-      relation r0(i64);
-      relation r1(i64);
-      relation r2(i64, i64);
-      r2(2, 2) <-- r1(1);
-      r2(v0, v1) <-- r2(v0, v1), r2(v1, v1);
-      r2(v0, v0) <-- r2(1, v0);
-      r2(v3, v3) <-- r2(v0, 0), r1(v1), let v2 = std::cmp::max((*v1), 1), r2(v3, v1);
-      r2(v1, 3) <-- r0(v0), r0(v0), r0(v1);
-      r2(v0, v0) <-- r0(v0), r0(v0);
+      relation r0(i64, i64);
+      relation r1(i64, i64, i64);
+      relation r2(i64, i64, i64);
+      r2(((*v0) + 1), ((*v1) + 1), ((*v0) + 1)) <-- r0(v0, v1), if ((*v0) < 6), if ((*v1) < 6), if ((*v0) < 6);
+      r2(v0, v3, v2) <-- r2(2, v0, v1), r2(v2, 3, v0), for v3 in 0..2;
+      r2(v0, v1, v0) <-- r0(v0, v1), r0(v1, v1);
+      r2(v0, v2, v3) <-- r0(v0, v1), r0(v1, v2), r0(v2, v3);
+      r2(1, 2, 1);
+      r2(v3, v0, ((*v1) + 1)) <-- r2(v0, v1, v2), r0(v0, v3) if ((*v0) <= 6), if ((*v1) < 6);
+      r2(((*v2) + 1), v3, (v4 + 1)) <-- r2(v0, 2, v1), r1(((*v0) + 0), v2, v3), let v4 = (*v1), r0(v1, 2), if ((*v2) < 6), if (v4 < 6);
+      r2(2, v1, v2) <-- let v0 = 0, r1(v0, v1, v2);
    }
    pub struct Inst { p: Prog, pool: Option<ascent::rayon::ThreadPool> }
    pub fn make(pool: Option<usize>) -> Box<dyn Driver> {
@@ -28,9 +30,9 @@ pub mod t1 {
    impl Driver for Inst {
       fn load(&mut self, rel: usize, rows: &[Sexp], append: bool) -> Option<()> {
          match rel {
-         0 => { let v: Vec<(i64,)> = parse_rows(rows)?; if append { self.p.r0.extend(v) } else { self.p.r0 = v } },
-         1 => { let v: Vec<(i64,)> = parse_rows(rows)?; if append { self.p.r1.extend(v) } else { self.p.r1 = v } },
-         2 => { let v: Vec<(i64,i64,)> = parse_rows(rows)?; if append { self.p.r2.extend(v) } else { self.p.r2 = v } },
+         0 => { let v: Vec<(i64,i64,)> = parse_rows(rows)?; if append { self.p.r0.extend(v) } else { self.p.r0 = v } },
+         1 => { let v: Vec<(i64,i64,i64,)> = parse_rows(rows)?; if append { self.p.r1.extend(v) } else { self.p.r1 = v } },
+         2 => { let v: Vec<(i64,i64,i64,)> = parse_rows(rows)?; if append { self.p.r2.extend(v) } else { self.p.r2 = v } },
             _ => return None,
          }
          Some(())
@@ -52,19 +54,18 @@ pub mod t9 {
    ascent! {
       #![generate_run_timeout]
       pub struct Prog;
-      relation r0(i64, i64);
-      relation r1(i64);
+      relation r0(i64, i64, i64);
+      relation r1(i64, i64);
       relation r2(i64, i64);
-      relation r3(i64, i64);
-      relation r4(i64);
-      r2(v0, v0) <-- r1(v0);
-      r3(((*v3) + 1), 0) <-- let v0 = 4, r2(v1, v2), r4(v3), if ((*v3) <= 5), if ((*v3) < 6);
-      r2(1, v0) <-- if let Some(v0) = Some(2), r3(1, v0);
-      r4(v0) <-- r2(v0, v1), r3(v1, v2), r3(v2, v3);
-      r2(3, v0) <-- r4(v0) if ((*v0) != 3) let v1 = ((*v0) + 1), r2(v2, v0);
-      r4(v0) <-- r4(v0);
-      r3((v1 + 1), v3) <-- r1(v0), r0(v0, ((*v0) + 0)) if ((*v0) < 2) let v1 = ((*v0) + 0), r2(v2, v3), if (v1 < 6);
-      r2(((*v0) + 1), v0) <-- r4(v0), let v1 = ((*v0) + 0), if ((*v0) < 6);
+      relation r3(i64);
+      relation r4(i64, i64, i64);
+      r2(v1, v2) <-- if let Some(v0) = Some(0), r1(v1, v2) if ((*v1) != 3);
+      r3(v0) <-- r2(v0, v1), r2(v1, v1);
+      r2(v0, v0) <-- if let Some(v0) = Some(1), r3(v1), if (v0 <= 6);
+      r2(v0, v1) <-- r1(v0, v1), r1(v0, v0), r1(v1, v2);
+      r3(v0) <-- for v9 in 0..3, r1(v0, v1), r2(v9, v1);
+      r4(2, v0, v1) <-- r1(0, v0) if ((*v0) != 4), if ((*v0) < 4), r2(v1, v0);
+      r2((v0 + 1), v0) <-- if let Some(v0) = Some(0), r0(v0, 0, 3), if let Some(v1) = Some(2), r0(v2, v0, (v0 + 1)) if ((*v2) != 1) let v3 = (v1 + 0), if (v0 < 6), if (v0 <= 6);
    }
    pub struct Inst { p: Prog, pool: Option<ascent::rayon::ThreadPool> }
    pub fn make(pool: Option<usize>) -> Box<dyn Driver> {
@@ -75,11 +76,11 @@ pub mod t9 {
    impl Driver for Inst {
       fn load(&mut self, rel: usize, rows: &[Sexp], append: bool) -> Option<()> {
          match rel {
-         0 => { let v: Vec<(i64,i64,)> = parse_rows(rows)?; if append { self.p.r0.extend(v) } else { self.p.r0 = v } },
-         1 => { let v: Vec<(i64,)> = parse_rows(rows)?; if append { self.p.r1.extend(v) } else { self.p.r1 = v } },
+         0 => { let v: Vec<(i64,i64,i64,)> = parse_rows(rows)?; if append { self.p.r0.extend(v) } else { self.p.r0 = v } },
+         1 => { let v: Vec<(i64,i64,)> = parse_rows(rows)?; if append { self.p.r1.extend(v) } else { self.p.r1 = v } },
          2 => { let v: Vec<(i64,i64,)> = parse_rows(rows)?; if append { self.p.r2.extend(v) } else { self.p.r2 = v } },
-         3 => { let v: Vec<(i64,i64,)> = parse_rows(rows)?; if append { self.p.r3.extend(v) } else { self.p.r3 = v } },
-         4 => { let v: Vec<(i64,)> = parse_rows(rows)?; if append { self.p.r4.extend(v) } else { self.p.r4 = v } },
+         3 => { let v: Vec<(i64,)> = parse_rows(rows)?; if append { self.p.r3.extend(v) } else { self.p.r3 = v } },
+         4 => { let v: Vec<(i64,i64,i64,)> = parse_rows(rows)?; if append { self.p.r4.extend(v) } else { self.p.r4 = v } },
             _ => return None,
          }
          Some(())
